@@ -310,6 +310,8 @@ def check(prop, tier, seed, replay=None):
         except C.BuildError as e:
             rep.broke(dict(correspondence='op server build (%s)' % cfg, why=str(e), log=e.log[-3000:])); continue
         rep.notes.setdefault('server_build_s', {})[cfg] = round(secs, 1)
+        if replay and 'case' not in replay:      # a forwarder violation (mdspan / mdarray): re-run the forwarder comparison
+            forwarders_C07(rep, seed, tier, cfg); break
         if replay:
             c = case_from_replay(replay, insts); cases = [c] if c else []
         else:
